@@ -67,6 +67,7 @@ thread_local! {
     static CBS: RefCell<Vec<CbProg>> = const { RefCell::new(Vec::new()) };
     static CB_COUNT: Cell<usize> = const { Cell::new(0) };
     static POLLS: Cell<u32> = const { Cell::new(0) };
+    static LAST_WAKER: RefCell<Option<(u32, std::task::Waker)>> = const { RefCell::new(None) };
     static DRIFT: Cell<u32> = const { Cell::new(0) };
 }
 
@@ -113,12 +114,19 @@ fn do_op(op: &str) {
                 return;
             };
             match op {
-                "poll" => {
-                    let id = POLLS.with(|p| {
-                        p.set(p.get() + 1);
-                        p.get()
-                    });
-                    let w = make_waker(id);
+                "poll" | "repoll" => {
+                    // "repoll": the same waker object as the previous poll (will_wake() is true), else a fresh one
+                    let reuse = if op == "repoll" { LAST_WAKER.with(|c| c.borrow_mut().take()) } else { None };
+                    let (id, w) = match reuse {
+                        Some(x) => x,
+                        None => {
+                            let id = POLLS.with(|p| {
+                                p.set(p.get() + 1);
+                                p.get()
+                            });
+                            (id, make_waker(id))
+                        }
+                    };
                     log(json!({"ev":"inv","side":"R","op":"poll","w":id}));
                     let mut cx = Context::from_waker(&w);
                     match r.poll_it(&mut cx) {
@@ -136,6 +144,7 @@ fn do_op(op: &str) {
                             drop(r);
                         }
                     }
+                    LAST_WAKER.with(|c| *c.borrow_mut() = Some((id, w)));
                 }
                 "is_ready" => {
                     log(json!({"ev":"inv","side":"R","op":"is_ready","w":0}));
@@ -219,6 +228,7 @@ fn run_one(tr: &Tracer, st: &Value) {
     CBS.with(|c| *c.borrow_mut() = cbs);
     CB_COUNT.with(|c| c.set(0));
     POLLS.with(|c| c.set(0));
+    LAST_WAKER.with(|c| *c.borrow_mut() = None);
     DRIFT.with(|c| c.set(0));
     let mut pool_len: Box<dyn Fn() -> i64> = Box::new(|| -1);
     let (s, r): (Box<dyn LSnd>, Box<dyn LRcv>) = match storage.as_str() {
